@@ -181,11 +181,16 @@ def r7(ctx, prog):
     R = ctx.rule("C12.R7", "the walk over abandoned OS segments visits each once: the cursor pops os_list_count times from the *head* of abandoned_os_list and every visited "
                            "segment is re-marked, so marking must append at the *tail* (new segment: next = NULL, becomes the tail; the head changes only when the list "
                            "was empty) — with head insertion the same segment is popped every time and the others are never reported")
-    f = prog.fn("mi_arena_segment_os_mark_abandoned")
-    seg = f.param_id(0)
-    tails = [a for a, l, rhs, op in f.field_stores("abandoned_os_list_tail") if rhs is not None and rl.var_of(f, rhs) == f.alias_root(seg)]
-    ctx.check(R, len(tails) >= 1, f.where(tails[0]) if tails else f.where(), "the marked segment becomes the tail of abandoned_os_list", key="C12.R7:tail")
-    nexts = [(a, rhs) for a, l, rhs, op in f.field_stores("abandoned_os_next") if f.is_ref(f.nodes[l]["c"][0], seg) or rl.var_of(f, f.nodes[l]["c"][0]) == f.alias_root(seg)]
+    # by role: the marking function is the one that counts a segment into abandoned_os_list_count; the segment is what it makes the tail
+    cands = [fn for fn in prog.fns_in("arena-abandon.c", "arena.c", "segment.c") if any(fn.nodes[e]["aop"] == "fetch_add" and fn.mentions_field(fn.nodes[e]["ptr"], "abandoned_os_list_count") for e in fn.all(kind="AtomicExpr"))]
+    if len(cands) != 1:
+        ctx.broke("C12.R7: the function that appends to abandoned_os_list (increments abandoned_os_list_count) not found (%d candidates)" % len(cands))
+        return
+    f = cands[0]
+    tails = [(a, rl.var_of(f, rhs)) for a, l, rhs, op in f.field_stores("abandoned_os_list_tail") if rhs is not None and rl.var_of(f, rhs) is not None]
+    ctx.check(R, len(tails) >= 1, f.where(tails[0][0]) if tails else f.where(), "the marked segment becomes the tail of abandoned_os_list", key="C12.R7:tail")
+    seg = tails[0][1] if tails else None
+    nexts = [(a, rhs) for a, l, rhs, op in f.field_stores("abandoned_os_next") if seg is not None and rl.var_of(f, f.nodes[l]["c"][0]) == seg]
     ctx.check(R, bool(nexts) and all(rhs is not None and rl.is_null_const(f, rhs) for a, rhs in nexts), f.where(nexts[0][0]) if nexts else f.where(),
               "the marked segment has no successor (segment->abandoned_os_next = NULL)", key="C12.R7:next")
     olds = {dd["d"] for _, dd in rl.local_decl(f, lambda dd: dd.get("init") is not None and f.mentions_field(dd["init"], "abandoned_os_list_tail"))}
@@ -195,14 +200,12 @@ def r7(ctx, prog):
         w = f.cfg.guarded(f.cfg.pt(a), was_empty)
         ctx.check(R, w is None, f.where(a), "the head of abandoned_os_list is changed only when the old tail was NULL (empty list)", key="C12.R7:head", witness=w)
     g = prog.fn("mi_arena_segment_clear_abandoned_next_list")
-    pops = [c for c in g.calls("mi_arena_segment_os_clear_abandoned")]
-    okp = bool(pops)
-    for c in pops:
-        vals = rl.values_of(g, rl.arg(g, c, 0))
-        okp = okp and any(g.mentions_field(v, "abandoned_os_list") for v in vals)
-    ctx.check(R, okp, g.where(pops[0]) if pops else g.where(), "the cursor un-abandons the head of abandoned_os_list", key="C12.R7:pop")
-    if not heads or not pops:
-        ctx.broke("C12.R7: head store of mi_arena_segment_os_mark_abandoned / pop of the cursor not found")
+    # the segment the cursor hands out is the one it read from the head of the list
+    rets = [g.nodes[r]["val"] for r in g.all(kind="ReturnStmt") if g.nodes[r].get("val") is not None and not rl.is_null_const(g, g.nodes[r]["val"])]
+    okp = bool(rets) and all(any(g.mentions_field(v, "abandoned_os_list") for v in rl.values_of(g, r)) for r in rets)
+    ctx.check(R, okp, g.where(rets[0]) if rets else g.where(), "the cursor hands out the head of abandoned_os_list", key="C12.R7:pop")
+    if not heads or not rets:
+        ctx.broke("C12.R7: head store of the marking function / the segment returned by the cursor not found")
     ctx.floor(R, 4)
 
 
